@@ -88,9 +88,16 @@ def boundaryInt (s : Bytes) : Option Int :=
   | 45 :: r => if allDigits r then some (-(Int.ofNat (natOf r))) else none
   | r => if allDigits r then some (Int.ofNat (natOf r)) else none
 
+/-- sign and remaining text of a decimal -/
+def decSign : Bytes → Bool × Bytes
+  | 45 :: r => (true, r)
+  | 43 :: r => (false, r)
+  | r => (false, r)
+
 /-- decimal text `[+-]? D+ ('.' D+)?` → (negative, digits as a natural number, number of fraction digits) -/
 def parseDecimalText (s : Bytes) : Option (Bool × Nat × Nat) :=
-  let (neg, body) := match s with | 45 :: r => (true, r) | 43 :: r => (false, r) | r => (false, r)
+  let neg := (decSign s).1
+  let body := (decSign s).2
   let ip := body.takeWhile YC.isDig
   let rest := body.dropWhile YC.isDig
   if ip.isEmpty then none
@@ -126,7 +133,7 @@ def dec64LexOK (fd : Nat) (s : Bytes) : Bool :=
   | some (neg, _, k) =>
     if k > fd then false
     else
-      let body := match s with | 45 :: r => r | 43 :: r => r | r => r
+      let body := (decSign s).2
       let ip := natOf (body.takeWhile YC.isDig)
       let fr := natOf ((body.dropWhile YC.isDig).drop 1) * 10 ^ (fd - k)
       let denom := 10 ^ fd
